@@ -285,9 +285,21 @@ fn show_init(i: Option<bool>) -> &'static str {
     match i { Some(false) => "0", Some(true) => "1", None => "x" }
 }
 
+/// flags `kN` (N a decimal number): take at most N entries per section before moving on
+fn skip_limit(flags: &str) -> usize {
+    match flags.find('k') {
+        Some(i) => flags[i + 1..].chars().take_while(|c| c.is_ascii_digit()).collect::<String>().parse().unwrap_or(0),
+        None => usize::MAX,
+    }
+}
+
 macro_rules! step {
-    ($t:expr, $stats:expr, $e:expr, $show:expr) => {
+    ($t:expr, $stats:expr, $lim:expr, $e:expr, $show:expr) => {
+        let mut taken = 0usize;
         loop {
+            // flag kN: take at most N entries of a section, then move on (the section-switch methods skip the rest)
+            if taken >= $lim { break; }
+            taken += 1;
             match $e {
                 Ok(Some(x)) => { $t.items.push($show(x)); $t.calls_at_item.push($stats.borrow().effective_calls); }
                 Ok(None) => break,
@@ -303,6 +315,7 @@ macro_rules! next {
 }
 
 fn run_aag<L: flussab_aiger::Lit>(s: &Setup, t: &mut Trace, stats: &Rc<RefCell<Stats>>, src: Src) {
+    let lim = skip_limit(&s.flags);
     use flussab_aiger::ascii;
     let cfg = ascii::Config::default();
     let p = next!(t, construct!(ascii::Parser<L>, src, s.ctor.as_str(), cfg, s.chunk));
@@ -332,25 +345,25 @@ fn run_aag<L: flussab_aiger::Lit>(s: &Setup, t: &mut Trace, stats: &Rc<RefCell<S
         return;
     }
     let mut r = next!(t, p.inputs());
-    step!(t, stats, r.next_input(), |l: L| format!("i:{}", l.code()));
+    step!(t, stats, lim, r.next_input(), |l: L| format!("i:{}", l.code()));
     let mut r = next!(t, r.latches());
-    step!(t, stats, r.next_latch(), |l: flussab_aiger::aig::Latch<L>| format!("l:{},{},{}", l.state.code(), l.next_state.code(), show_init(l.initialization)));
+    step!(t, stats, lim, r.next_latch(), |l: flussab_aiger::aig::Latch<L>| format!("l:{},{},{}", l.state.code(), l.next_state.code(), show_init(l.initialization)));
     let mut r = next!(t, r.outputs());
-    step!(t, stats, r.next_output(), |l: L| format!("o:{}", l.code()));
+    step!(t, stats, lim, r.next_output(), |l: L| format!("o:{}", l.code()));
     let mut r = next!(t, r.bad_state_properties());
-    step!(t, stats, r.next_bad_state_property(), |l: L| format!("b:{}", l.code()));
+    step!(t, stats, lim, r.next_bad_state_property(), |l: L| format!("b:{}", l.code()));
     let mut r = next!(t, r.invariant_constraints());
-    step!(t, stats, r.next_invariant_constraint(), |l: L| format!("c:{}", l.code()));
+    step!(t, stats, lim, r.next_invariant_constraint(), |l: L| format!("c:{}", l.code()));
     let mut r = next!(t, r.justice_properties());
-    step!(t, stats, r.next_justice_property_size(), |n: usize| format!("jn:{}", n));
+    step!(t, stats, lim, r.next_justice_property_size(), |n: usize| format!("jn:{}", n));
     let mut r = next!(t, r.justice_property_local_fairness_constraints());
-    step!(t, stats, r.next_justice_property_local_fairness_constraint(), |l: L| format!("j:{}", l.code()));
+    step!(t, stats, lim, r.next_justice_property_local_fairness_constraint(), |l: L| format!("j:{}", l.code()));
     let mut r = next!(t, r.fairness_constraints());
-    step!(t, stats, r.next_fairness_constraint(), |l: L| format!("f:{}", l.code()));
+    step!(t, stats, lim, r.next_fairness_constraint(), |l: L| format!("f:{}", l.code()));
     let mut r = next!(t, r.and_gates());
-    step!(t, stats, r.next_and_gate(), |g: flussab_aiger::aig::AndGate<L>| format!("a:{},{},{}", g.output.code(), g.inputs[0].code(), g.inputs[1].code()));
+    step!(t, stats, lim, r.next_and_gate(), |g: flussab_aiger::aig::AndGate<L>| format!("a:{},{},{}", g.output.code(), g.inputs[0].code(), g.inputs[1].code()));
     let mut r = next!(t, r.symbols());
-    step!(t, stats, r.next_symbol(), |sy: flussab_aiger::aig::Symbol| show_symbol(&sy));
+    step!(t, stats, lim, r.next_symbol(), |sy: flussab_aiger::aig::Symbol| show_symbol(&sy));
     match r.comment() {
         Ok(Some(c)) => { t.items.push(format!("C:{}", hex(c.as_bytes()))); t.calls_at_item.push(stats.borrow().effective_calls); t.fin = "ok".into(); }
         Ok(None) => t.fin = "ok".into(),
@@ -359,6 +372,7 @@ fn run_aag<L: flussab_aiger::Lit>(s: &Setup, t: &mut Trace, stats: &Rc<RefCell<S
 }
 
 fn run_aig<L: flussab_aiger::Lit>(s: &Setup, t: &mut Trace, stats: &Rc<RefCell<Stats>>, src: Src) {
+    let lim = skip_limit(&s.flags);
     use flussab_aiger::binary;
     let cfg = binary::Config::default();
     let p = next!(t, construct!(binary::Parser<L>, src, s.ctor.as_str(), cfg, s.chunk));
@@ -401,23 +415,23 @@ fn run_aig<L: flussab_aiger::Lit>(s: &Setup, t: &mut Trace, stats: &Rc<RefCell<S
         return;
     }
     let mut r = next!(t, p.latches());
-    step!(t, stats, r.next_latch(), |l: flussab_aiger::aig::OrderedLatch<L>| format!("l:{},{}", l.next_state.code(), show_init(l.initialization)));
+    step!(t, stats, lim, r.next_latch(), |l: flussab_aiger::aig::OrderedLatch<L>| format!("l:{},{}", l.next_state.code(), show_init(l.initialization)));
     let mut r = next!(t, r.outputs());
-    step!(t, stats, r.next_output(), |l: L| format!("o:{}", l.code()));
+    step!(t, stats, lim, r.next_output(), |l: L| format!("o:{}", l.code()));
     let mut r = next!(t, r.bad_state_properties());
-    step!(t, stats, r.next_bad_state_property(), |l: L| format!("b:{}", l.code()));
+    step!(t, stats, lim, r.next_bad_state_property(), |l: L| format!("b:{}", l.code()));
     let mut r = next!(t, r.invariant_constraints());
-    step!(t, stats, r.next_invariant_constraint(), |l: L| format!("c:{}", l.code()));
+    step!(t, stats, lim, r.next_invariant_constraint(), |l: L| format!("c:{}", l.code()));
     let mut r = next!(t, r.justice_properties());
-    step!(t, stats, r.next_justice_property_size(), |n: usize| format!("jn:{}", n));
+    step!(t, stats, lim, r.next_justice_property_size(), |n: usize| format!("jn:{}", n));
     let mut r = next!(t, r.justice_property_local_fairness_constraints());
-    step!(t, stats, r.next_justice_property_local_fairness_constraint(), |l: L| format!("j:{}", l.code()));
+    step!(t, stats, lim, r.next_justice_property_local_fairness_constraint(), |l: L| format!("j:{}", l.code()));
     let mut r = next!(t, r.fairness_constraints());
-    step!(t, stats, r.next_fairness_constraint(), |l: L| format!("f:{}", l.code()));
+    step!(t, stats, lim, r.next_fairness_constraint(), |l: L| format!("f:{}", l.code()));
     let mut r = next!(t, r.and_gates());
-    step!(t, stats, r.next_and_gate(), |g: flussab_aiger::aig::OrderedAndGate<L>| format!("a:{},{}", g.inputs[0].code(), g.inputs[1].code()));
+    step!(t, stats, lim, r.next_and_gate(), |g: flussab_aiger::aig::OrderedAndGate<L>| format!("a:{},{}", g.inputs[0].code(), g.inputs[1].code()));
     let mut r = next!(t, r.symbols());
-    step!(t, stats, r.next_symbol(), |sy: flussab_aiger::aig::Symbol| show_symbol(&sy));
+    step!(t, stats, lim, r.next_symbol(), |sy: flussab_aiger::aig::Symbol| show_symbol(&sy));
     match r.comment() {
         Ok(Some(c)) => { t.items.push(format!("C:{}", hex(c.as_bytes()))); t.calls_at_item.push(stats.borrow().effective_calls); t.fin = "ok".into(); }
         Ok(None) => t.fin = "ok".into(),
@@ -741,6 +755,35 @@ pub fn oracle_expect(toks: &[&str]) -> String {
         return if t.fin.starts_with("E(") { "PASS".into() } else { format!("FAIL input violating a declared limit was not rejected: {}", got) };
     }
     if got == want { "PASS".into() } else { format!("FAIL got [{got}] expected [{want}]") }
+}
+
+/// o_skip <setup with flags kN>: AIGER streaming API, at most N entries taken per section (the section-switch methods
+/// skip the rest): the entries handed out must be the first N of each section of the exhaustive run, and the final
+/// outcome (clean end, the same syntax error, the same I/O error) must be the same: skipped entries are still checked.
+pub fn oracle_skip(toks: &[&str]) -> String {
+    let s = Setup::parse(toks);
+    let lim = skip_limit(&s.flags);
+    let mut full_setup = Setup { parser: s.parser.clone(), ty: s.ty.clone(), flags: s.flags.clone(), data: s.data.clone(), events: s.events.clone(),
+                                 pre: s.pre, chunk: s.chunk, ctor: s.ctor.clone() };
+    full_setup.flags = match s.flags.find('k') { Some(i) => s.flags[..i].to_string() + "-", None => s.flags.clone() };
+    let (full, _) = run_setup(&full_setup);
+    let (skip, _) = run_setup(&s);
+    let mut seen: std::collections::HashMap<String, usize> = Default::default();
+    let mut want: Vec<String> = vec![];
+    for it in &full.items {
+        let sec = it.split(':').next().unwrap_or("").to_string();
+        if sec.starts_with('H') || sec == "C" { want.push(it.clone()); continue; }
+        let c = seen.entry(sec).or_insert(0);
+        if *c < lim { want.push(it.clone()); }
+        *c += 1;
+    }
+    if skip.fin != full.fin {
+        return format!("FAIL taking at most {lim} entries per section ends with {}, reading every entry ends with {}", skip.fin, full.fin);
+    }
+    if skip.items != want {
+        return format!("FAIL taking at most {lim} entries per section hands out [{}], expected [{}]", skip.items.join(";"), want.join(";"));
+    }
+    "PASS".into()
 }
 
 /// o_c09 <expected max calls per item, comma separated> + setup (one line per read):
